@@ -592,6 +592,7 @@ func (ch *chain) everSorted() []tmVal {
 
 func (ch *chain) buildEvidence(b *hBlock, h int64) []abci.Evidence {
 	var out []abci.Evidence
+	var cur *chainView
 	ever := ch.everSorted()
 	for _, e := range b.Evidence {
 		ih := h - 1 - e.HeightAgo
@@ -612,6 +613,15 @@ func (ch *chain) buildEvidence(b *hBlock, h int64) []abci.Evidence {
 			power = 1
 		} else {
 			v := ever[mod(e.Val, len(ever))]
+			// known finding: evidence against a tombstoned validator that staked again panics BeginBlock
+			if ch.c != nil && knownSigs()[sigTombstonedEvidence] && !ch.noViews {
+				if cur == nil {
+					cur = ch.app.view()
+				}
+				if val, ok := cur.Vals[v.Addr]; ok && val.Status != sdk.Unstaked && cur.Sign[v.Addr].Tombstoned && ch.c.Excluding(sigTombstonedEvidence) {
+					continue
+				}
+			}
 			addr, _ = hex.DecodeString(v.Addr)
 			power = ch.powerAt[ih][v.Addr]
 			switch e.PowerMode {
@@ -635,6 +645,7 @@ func (ch *chain) buildEvidence(b *hBlock, h int64) []abci.Evidence {
 	return out
 }
 
+const sigTombstonedEvidence = `C07/beginblock-panics: ERROR: Codespace: pos Code: # Message: "Warning: validator is already tombstoned"`
 const sigUnknownEvidence = `C07/beginblock-panics: ERROR: Codespace: pos Code: # Message: "Warning: the DS evidence is unable to be handled"`
 
 // panicClass shortens a panic value to a stable class for labels.
